@@ -376,6 +376,15 @@ def impl(case):
                            adjust=adjust, pixel_register=not pixel)
                 except Exception:  # noqa: BLE001  (invalid arguments fail here as they will below)
                     pass
+            if dims is None and h in (2, 3):
+                # history: the same object was asked, just before, for a grid / a table / a profile with CUSTOM names (dims, data names, the name
+                # of an extra coordinate): names given in one call are that call's; the next call without them uses the defaults again
+                try:
+                    g.grid(region=(0.0, 2.0, 0.0, 1.0), shape=(2, 2), dims=("lat", "lon"), data_names=None if names is None else [n_ + "_x" for n_ in names])
+                    g.scatter(region=(0.0, 2.0, 0.0, 1.0), size=3, random_state=0, dims=("lat", "lon"))
+                    g.profile((0.0, 0.0), (1.0, 1.0), 3, dims=("lat", "lon"))
+                except Exception:  # noqa: BLE001
+                    pass
             call_dims = dims
             if h == 1 and dims is not None:
                 # the dimension names as an attribute of the gridder (a geographic subclass sets dims = ("latitude", "longitude")) instead of an
